@@ -95,6 +95,8 @@ THEOREMS = [
     "Lena.C19.fresh_when_latex_overwrites",
     "Lena.C19.runScalarPlot_eq_runPlot",
     "Lena.C19.mapGroupGuard_ok",
+    "Lena.C19.popReturned_perm",
+    "Lena.C19.latexRun_yields_iff_ok",
 ]
 CASE_TIMEOUT = 20
 
@@ -121,6 +123,7 @@ class _State:
     proc = False     # True: real subprocesses (sh stubs); False: in-process stand-in
     log = []         # in-process invocation log of the current run
     interrupt = 0    # > 0: the next `communicate()` of a stand-in process raises KeyboardInterrupt (Ctrl-C)
+    sched = {}       # tex path -> (ok, fin): whether the LaTeX command succeeds, after how many polls it is seen terminated
 
 
 def _stub_latex(tex, out):
@@ -145,7 +148,14 @@ class _FakePopen(object):
         self.stdout = b""
         self.stderr = b""
         self.is_latex = command[0] in ("fakelatex", "pdflatex")
-        self.returncode = self._run(list(command))
+        ok, fin = _State.sched.get(command[1], (True, 0)) if command[0] == "fakelatex" else (True, 0)
+        self.polls_left = fin
+        if ok:
+            self._rc = self._run(list(command))
+        else:
+            _State.log.append(["latex", command[1]])      # launched; the command fails and writes nothing
+            self._rc = 1
+        self.returncode = self._rc if fin == 0 else None
 
     def _run(self, c):
         try:
@@ -173,12 +183,18 @@ class _FakePopen(object):
         return 127
 
     def poll(self):
+        if self.returncode is None:
+            if self.polls_left > 0:
+                self.polls_left -= 1
+                return None
+            self.returncode = self._rc
         return self.returncode
 
     def communicate(self, *a, **k):
         if _State.interrupt > 0 and self.is_latex:
             _State.interrupt -= 1
             raise KeyboardInterrupt()
+        self.returncode = self._rc
         return (b"", b"")
 
     def terminate(self):
@@ -694,6 +710,25 @@ def _run_stage(case):
         except Exception as e:
             return {"e": exc_name(e)}
         return {"out": {k: ctx.get("output", {}).get(k) for k in OUT_KEYS}}
+    if op == "latexrun":
+        env = _Env()
+        try:
+            stamps = _world_setup(env, case["world"])
+            flow = [(_data_of(env, x["data"]), _ctx_of_out(env, x["out"])) for x in case["vals"]]
+            _State.log = []
+            _State.sched = {env.abs(x["data"]["path"]): (x["ok"], x["fin"]) for x in case["vals"] if "path" in x["data"]}
+            el = L["output"].LaTeXToPDF(overwrite=case["overwrite"], verbose=case["verbose"],
+                                        create_command=lambda t, o, d, c: ["fakelatex", t, o])
+            try:
+                res = list(el.run(iter(flow)))
+            except Exception as e:
+                return {"e": exc_name(e)}
+            finally:
+                _State.sched = {}
+            return {"files": _snapshot(env, stamps), "log": env.take_log(), "vals": [_val(env, v) for v in res],
+                    "pool": len(el.processes)}
+        finally:
+            env.close()
     # stages on a file system
     env = _Env()
     try:
@@ -754,7 +789,7 @@ def model_requests(case):
                 st = dict(st, run=dict(r, tplm=edits))
             steps.append(st)
         return [{"op": "hist", "reuse": bool(case.get("reuse")), "watch": [], "steps": steps}]
-    if op in ("write", "latex", "png"):
+    if op in ("write", "latex", "png", "latexrun"):
         return [dict(case, watch=sorted(f["p"] for f in case["world"]["files"]))]
     if op == "mf" and case.get("static") is not None and case["name"] is None:
         return [dict(case, name=case["static"])]     # full_context = static context updated with the value's context
@@ -822,6 +857,12 @@ def compare(case, res, replies):
     if op in ("write", "latex", "png"):
         a, b = _norm_run(res), _norm_run(_mark_passed(case, m))
         return None if a == b else f"impl {jdump(a)[:700]} vs model {jdump(b)[:700]}"
+    if op == "latexrun":
+        if "e" in res or "e" in m:
+            return None if res.get("e") == m.get("e") else f"impl {res} vs model {m}"
+        a, b = _norm_run(res), _norm_run(m)
+        a["vals"], b["vals"] = [_norm_val(v) for v in res["vals"]], [_norm_val(v) for v in m["vals"]]   # in yield order
+        return None if a == b else f"impl {jdump(a)[:800]} vs model {jdump(b)[:800]}"
     if op == "render":
         if "e" in res:
             return f"impl raised {res}"
@@ -975,6 +1016,35 @@ def _oracle_stage(case, res):
                 return (f"RenderLaTeX re-used: run {i} rendered template {r} although the template file holds "
                         f"template {t} (states of the file: {case['tpls']})")
             prev = (t, m)
+        return None
+    if op == "latexrun":
+        if "e" in res:
+            return None        # a missing .tex file with an existing pdf and no `changed` (getmtime fails)
+        files, log = res["files"], res["log"]
+        got = [v["data"].get("path") for v in res["vals"]]
+        for x in case["vals"]:
+            if (x["out"] or {}).get("filetype") != "tex":
+                continue
+            tex = x["data"]["path"]
+            pdf = tex[:-4] + ".pdf" if tex.endswith(".tex") else tex.replace(".tex", ".pdf")
+            launched = ["latex", tex] in log
+            n = got.count(pdf)
+            # every yielded pdf name exists and was produced by a successful conversion in this run (or was skipped
+            # as unchanged); a launched conversion is yielded iff its return code is 0 — whatever the verbosity
+            # and whenever it terminated
+            if launched and not x["ok"] and n:
+                return (f"LaTeXToPDF(verbose={case['verbose']}) yielded {pdf} although its conversion failed "
+                        f"(return code 1, seen after {x['fin']} polls); file on disk: {files.get(pdf)}")
+            if n and pdf not in files:
+                return f"LaTeXToPDF yielded {pdf}, which does not exist"
+            if launched and x["ok"] and tex in files and n != 1:
+                return f"LaTeXToPDF yielded {pdf} {n} times although its conversion succeeded (seen after {x['fin']} polls)"
+            if launched and x["ok"] and tex in files and not files[pdf]["w"]:
+                return f"LaTeXToPDF: {pdf} was not written in this run although the command was launched and succeeded"
+            if not launched and n != 1:
+                return f"LaTeXToPDF skipped {tex} (unchanged) but yielded {pdf} {n} times"
+        if res.get("pool"):
+            return f"LaTeXToPDF: {res['pool']} processes left in the pool after the run"
         return None
     if op == "mglen":
         if case["ndata"] != case["ngroup"]:
@@ -1475,6 +1545,30 @@ def _stage_cases():
             cases.append({"op": "png", "overwrite": False, "format": "png",
                           "world": {"files": [{"p": pdf, "c": {"pdf": [{"tex": 1, "deps": []}, []]}, "m": 2}], "clock": 9},
                           "data": {"path": pdf}, "out": {"filetype": "pdf", "changed": cin}})
+    # LaTeXToPDF.run on a flow of several values: per launch the command succeeds or fails (return code 1, nothing
+    # written) and is seen terminated after 0, 1 or "many" polls (while values are still coming, or only in the
+    # final wait); verbose 0, 1, 2; some pdfs exist already (skipped or stale)
+    def tex_of(i):
+        return {"tex": 1, "deps": [f"{OUT}/q{i}.csv"]}
+    for n in (2, 3):
+        for oks in itertools.product((True, False), repeat=n):
+            for fins in itertools.product((0, 1, 9), repeat=n):
+                if n == 3 and (all(oks) or fins.count(9) == 3) and fins != (0, 0, 0):
+                    continue
+                for verbose in (0, 1, 2):
+                    for pre in ("none", "old pdfs"):
+                        if n == 3 and pre == "old pdfs" and verbose == 2:
+                            continue
+                        fs, vals = [], []
+                        for i in range(n):
+                            fs.append({"p": f"{OUT}/q{i}.tex", "c": tex_of(i), "m": 3})
+                            if pre == "old pdfs" and i % 2 == 0:
+                                fs.append({"p": f"{OUT}/q{i}.pdf", "c": {"pdf": [{"tex": 2, "deps": []}, []]}, "m": 2})
+                            vals.append({"data": {"path": f"{OUT}/q{i}.tex"}, "ok": oks[i], "fin": fins[i],
+                                         "out": {"filetype": "tex", "fileext": "tex", "filename": "q%d" % i,
+                                                 "changed": True if i != 1 else (False if pre == "old pdfs" else None)}})
+                        cases.append({"op": "latexrun", "overwrite": False, "verbose": verbose,
+                                      "world": {"files": fs, "clock": 9}, "vals": vals})
     # PDFToPNG.run on one value
     G = {"png": {"pdf": [T, [A]]}}
     for ow in (False, True):
@@ -1819,6 +1913,9 @@ ASSUMPTIONS = [
     "an edit of the template file changes its modification time (jinja2 re-uses a cached template iff the time is the "
     "same; the harness sets the time explicitly at every edit; the model shows that an edit which keeps the time is "
     "served stale, and the render2 stage cases compare exactly that with the real RenderLaTeX)",
+    "a LaTeX command either succeeds (writes the pdf, return code 0) or fails (writes nothing, return code 1); when a "
+    "process is seen terminated (`fin` polls) is decided by the schedule of the case; the pdf is written at launch "
+    "(latexRun / popReturned model the pool; latexRun_yields_iff_ok)",
     "state kept by elements between runs: the jinja2 template cache of RenderLaTeX (modelled: PipeState, getTemplate, "
     "runObject; run_independent_of_previous_runs) and the process pool of LaTeXToPDF (empty after a completed run: the "
     "model runs commands to completion); ToCSV, MakeFilename, Write, PDFToPNG, MapGroup keep none",
@@ -1828,7 +1925,8 @@ ASSUMPTIONS = [
 RULE = ("stage cases (exhaustive small scopes): MakeFilename arguments x name x incoming output (all valid combinations), "
         "Write._make_filename keys x output directories, Write.run mode x existing file {none, same, different} x incoming "
         "changed {unset, True, False} x data kind, LaTeXToPDF overwrite x changed x tex/pdf presence and mtime order, "
-        "PDFToPNG likewise, one RenderLaTeX object over all sequences of 2-3 states (content, mtime) of the template file, "
+        "PDFToPNG likewise, LaTeXToPDF.run on flows of 2-3 values with per-launch schedules (command succeeds / fails with "
+        "return code 1, seen terminated after 0, 1 or many polls) x verbose 0,1,2 x existing pdfs, one RenderLaTeX object over all sequences of 2-3 states (content, mtime) of the template file, "
         "group_plots and _update_with_group over {unset, True, False}^(1..3).  Histories: one plot, first "
         "run then EVERY step of the alphabet data{keep,change} x template{keep,change} x deletion of any subset of "
         "csv/tex/pdf/png (64), the same with all 36 option settings; a group of two plots with every step of its "
